@@ -80,7 +80,7 @@ impl Family for C17Family {
                     p1: *r.pick(&[3u8, 7, 8]),
                     le: r.bool(),
                 },
-                _ => OpKind::U2fVersion { le: false },
+                _ => OpKind::U2fVersion { le: false, le_val: *r.pick(&[0u16, 0, 6, 256, 0xffff]) },
             };
             let mut op = plain_op(kind);
             op.yields = gen_yields(&mut r, 4, 2);
@@ -101,7 +101,7 @@ impl Family for C17Family {
         let c = ceremony_of(scn);
         let rec = run_and_measure(c, stats);
         let mut j = Judge::new("C17", scn, &rec);
-        for p in ["registration_verified", "authentication_verified", "unknown_handle_rejected", "empty_key_handle", "key_handle_255", "frame_with_le", "save_error_reported", "authentication_for_other_application"] {
+        for p in ["registration_verified", "authentication_verified", "unknown_handle_rejected", "empty_key_handle", "key_handle_255", "frame_with_le", "save_error_reported", "authentication_for_other_application", "version_frame_with_nonzero_le"] {
             stats.declare_probe(p);
         }
         if let Some(p) = &rec.panic {
@@ -246,7 +246,13 @@ impl Family for C17Family {
                         _ => {}
                     }
                 }
-                (OpKind::U2fVersion { .. }, OpResult::U2fVersion(r)) => match r {
+                (OpKind::U2fVersion { le_val, .. }, OpResult::U2fVersion(r)) => match r {
+                    _ if {
+                        if *le_val != 0 {
+                            stats.probe("version_frame_with_nonzero_le");
+                        }
+                        false
+                    } => {}
                     Ok(bytes) => {
                         if bytes.as_slice() != b"U2F_V2\x90\x00" {
                             j.fail("version-encoding", format!("encoded version response is {}", hex(bytes)));
